@@ -4,6 +4,7 @@ from ._floorprop import FloorProp
 class C15(FloorProp):
     id = 'C15'
     profile = 'c15'
+    crash_every = 6
     design_ref = 'DESIGN.md section 4 / C15'
     budgets = {'quick': 8000, 'thorough': 300000}
 
